@@ -2228,6 +2228,26 @@ class Interp:
                     kv[0] if fn.args[1] == "keys" else kv[1]
                     if fn.args[1] == "values" else T("tuple", kv[0], kv[1])
                     for kv in d_.args])
+        if fn.op == "call" and tm.callee_name(fn) in (
+                "operator.attrgetter", "operator.itemgetter") and \
+                len(fn.args[1]) == 1 and not fn.args[2] and \
+                len(args) == 1 and not kwargs:
+            # operator.attrgetter("a")(x) is x.a, itemgetter(k)(x) is x[k]
+            if tm.callee_name(fn).endswith("attrgetter"):
+                if tm.is_const(fn.args[1][0]) and isinstance(
+                        tm.const_val(fn.args[1][0]), str) and \
+                        "." not in tm.const_val(fn.args[1][0]):
+                    return self.get_attr(args[0], tm.const_val(fn.args[1][0]),
+                                         frame, live, node)
+            else:
+                return self.subscript(args[0], fn.args[1][0])
+        if fn.op == "global" and fn.args[0] == "operator.index" and \
+                len(args) == 1 and not kwargs:
+            return args[0]        # the identity on integers
+        if fn.op == "global" and fn.args[0] == "numpy.take" and \
+                len(args) == 2 and len(kwargs) == 1 and \
+                kwargs[0][0] == "axis" and tm.is_const(kwargs[0][1], 0):
+            return self.subscript(args[0], args[1])   # X[idx] along axis 0
         if fn.op == "attr" and fn.args[1] == "__getitem__" and \
                 len(args) == 1 and not kwargs and args[0].op != "star":
             return tm.sub(fn.args[0], args[0])
@@ -2408,7 +2428,7 @@ class Interp:
                 return T("comp", "gen", el, ((args[1], lid),), (cond,))
         if name == "builtins.map" and len(args) == 2 and not kwargs and \
                 self.unname(args[0]).op in ("closure", "func", "global",
-                                            "attr", "bound", "cls"):
+                                            "attr", "bound", "cls", "call"):
             # map(F, X) is the generator expression (F(x) for x in X)
             its = literal_items(args[1], self.unname)
             if its is not None and len(its) <= 8:
